@@ -329,6 +329,7 @@ func (e *Engine) store(p PtrV, v Value) {
 func (e *Engine) noteWrite(objEpoch int, kind string, id int, name string) {
 	if e.frozen > 0 && objEpoch < e.frozen {
 		e.preWrites++
+		e.preWriteIDs = append(e.preWriteIDs, id)
 		if len(e.preWriteLog) < 8 {
 			where := ""
 			if e.curInstr != nil {
